@@ -24,6 +24,65 @@ theorem nextIrrev_mono (w cur h : Int) : cur ≤ nextIrrev w cur h := by
   · omega
   · split <;> omega
 
+-- ---------------------------------------------------------------- the pruning rule (`UpdateNextIrreversibleBlockHeightForPrune`)
+-- The property sets "explicit pruning walks aside"; what such a walk does to the height is part of the model all the same
+-- (`undoBlock … true`), and these statements bound it: the undo of a block of height h with the prune flag sets the
+-- height to max(0, h − w) whatever it was, which is below h, never above what applying the block would have given, and
+-- exactly what applying the block again restores.
+
+/-- with a non-zero window the pruning rule forgets the current height: the result is max(0, height − w) -/
+theorem nextIrrevPrune_eq_max (w cur h : Int) (hw : 0 < w) : nextIrrevPrune w cur h = max 0 (h - w) := by
+  unfold nextIrrevPrune
+  have : ¬ w ≤ 0 := by omega
+  simp only [this, ↓reduceIte]
+  split <;> omega
+
+/-- window 0: a pruning undo leaves the height alone as well -/
+theorem nextIrrevPrune_window_zero (cur h : Int) : nextIrrevPrune 0 cur h = cur := by
+  unfold nextIrrevPrune; simp
+
+/-- the pruning rule never produces a negative height from a non-negative one -/
+theorem nextIrrevPrune_nonneg (w cur h : Int) (hc : 0 ≤ cur) : 0 ≤ nextIrrevPrune w cur h := by
+  unfold nextIrrevPrune
+  split
+  · exact hc
+  · split <;> omega
+
+/-- **after the pruning undo of a block of height h ≥ 1 (window w > 0) the irreversible height is below h**: at most
+h − 1, the height of the block the pointer then names when heights are consecutive — a pruning walk never leaves the
+irreversible height above the tip it produced -/
+theorem nextIrrevPrune_lt_height (w cur h : Int) (hw : 0 < w) (hh : 0 < h) : nextIrrevPrune w cur h < h := by
+  rw [nextIrrevPrune_eq_max w cur h hw]; omega
+
+/-- the pruning rule never sets the height above what APPLYING the same block gives from the same height -/
+theorem nextIrrevPrune_le_nextIrrev (w cur h : Int) (hc : 0 ≤ cur) : nextIrrevPrune w cur h ≤ nextIrrev w cur h := by
+  unfold nextIrrevPrune nextIrrev
+  split
+  · omega
+  · split <;> split <;> omega
+
+/-- **prune, then apply the block again**: the height is exactly the one the pruning undo set — re-applying the pruned
+block raises nothing (so undo-with-prune followed by a replay of the same block is stable under repetition) -/
+theorem nextIrrev_after_prune (w cur h : Int) : nextIrrev w (nextIrrevPrune w cur h) h = nextIrrevPrune w cur h := by
+  unfold nextIrrevPrune nextIrrev
+  split
+  · rfl
+  · split <;> (try split) <;> omega
+
+/-- the pruning rule is idempotent in the height it is given -/
+theorem nextIrrevPrune_idem (w cur h : Int) : nextIrrevPrune w (nextIrrevPrune w cur h) h = nextIrrevPrune w cur h := by
+  unfold nextIrrevPrune
+  split
+  · rfl
+  · rfl
+
+/-- a pruning undo of blocks of DEcreasing heights (a walk undoes newest first) ends at the value of the LAST one -/
+theorem prune_fold_last (w cur : Int) (hw : 0 < w) (hs : List Int) (h : Int) :
+    (hs ++ [h]).foldl (nextIrrevPrune w) cur = max 0 (h - w) := by
+  rw [List.foldl_append]
+  simp only [List.foldl_cons, List.foldl_nil]
+  exact nextIrrevPrune_eq_max w _ h hw
+
 /-- the height after applying blocks of heights `hs` in any order of application, starting from `cur`:
 it is the maximum of `cur` and every `h − w` (stated as: upper bound that is attained) -/
 theorem irrev_is_max (w : Int) (hw : 0 < w) (hs : List Int) (cur : Int) :
@@ -127,6 +186,24 @@ theorem playForMiner_irrev (e : Env) (s : St) (lh : Int) (b : Block) :
 
 /-- undoing a block without the prune flag leaves the irreversible height alone -/
 theorem undoBlock_irrev (e : Env) (s : St) (b : Block) : (undoBlock e s b false).irrev = s.irrev := by
+  unfold undoBlock; simp
+
+/-- **undoing a block WITH the prune flag**: the new height is the pruning rule applied to the block's height — with a
+window w > 0 it is max(0, height − w), whatever the height was; with window 0 it is unchanged -/
+theorem undoBlock_prune_irrev (e : Env) (s : St) (b : Block) :
+    (undoBlock e s b true).irrev = nextIrrevPrune e.window s.irrev b.height := by
+  unfold undoBlock; simp
+
+/-- … and it lies strictly below the undone block's height (window > 0, height ≥ 1): the block that was pruned away is not
+irreversible afterwards, nor is anything above the pointer's new block when heights are consecutive -/
+theorem undoBlock_prune_below (e : Env) (s : St) (b : Block) (hw : 0 < e.window) (hh : 0 < b.height) :
+    (undoBlock e s b true).irrev < (b.height : Int) := by
+  rw [undoBlock_prune_irrev]
+  exact nextIrrevPrune_lt_height _ _ _ hw (by exact_mod_cast hh)
+
+/-- a pruning undo moves the pointer exactly as a plain undo does (the flag touches the height only) -/
+theorem undoBlock_prune_pointer (e : Env) (s : St) (b : Block) :
+    (undoBlock e s b true).pointer = (undoBlock e s b false).pointer := by
   unfold undoBlock; simp
 
 theorem todoBlock_irrev (e : Env) (s s' : St) (lh : Int) (b : Block) (h : todoBlock e s lh b = some s') :
@@ -235,5 +312,9 @@ theorem walk_irrev_mono (e : Env) (s : St) (lh : Int) (dest : Nat) :
 example : [1, 2, 3, 4, 5].foldl (nextIrrev 2) 0 = 3 := by decide
 -- a fork replayed at lower heights afterwards does not move it back
 example : [1, 2, 3, 4, 5, 3, 4].foldl (nextIrrev 2) 0 = 3 := by decide
+
+-- non-vacuity of the pruning statements: window 2, heights 5 then 4 undone from height 3
+example : [5, 4].foldl (nextIrrevPrune 2) 3 = 2 := by decide
+example : nextIrrev 2 (nextIrrevPrune 2 3 4) 4 = 2 ∧ nextIrrevPrune 2 3 4 < 4 := by decide
 
 end XV.C17
